@@ -453,6 +453,8 @@ def run(ctx):
     run_fresh(ctx, tu, corpus)
     run_xml(ctx, tu, corpus)
     run_hms(ctx, tu, corpus)
+    # ---- the SOURCE-REGENERATED code (translator, string subset): see gen_stream at the end of this file
+    gen_stream(ctx, tu, corpus)
 
 
 def run_fresh(ctx, tu, corpus):
@@ -633,3 +635,57 @@ def run_hms(ctx, tu, corpus):
         missing = [(p, m) for p in ('short', 'ss', 'm:ss', 'h:mm:ss') for m in (False, True) if (p, m) not in paths_seen]
         if missing:
             raise common.Infra(f'C20: model paths without input: {missing}')
+
+
+# =================================================================================================
+# Generated-code stream: Gen.xml_escape / Gen.format_hms (lean/Plotink/Gen/*.lean, regenerated from text_utils.py on
+# every run - the definitions the C20_gen_* theorems are about) against the real functions, on this module's own
+# inputs.  xml_escape: identical strings (no arithmetic).  format_hms: Rounding.ieee for the one float operation
+# (ms / 1000.0) - identical strings, i.e. the binary64 quotient, round(), '.3f' and '{:02}' rendering all agree.
+# =================================================================================================
+GEN_FUNCTIONS = ['xml_escape', 'format_hms']
+TRUSTED = TRUSTED + ['Gen.xml_escape / Gen.format_hms are regenerated from text_utils.py on every run and proved equal to the hand '
+                     'models (C20_gen_bridge_xml, C20_gen_bridge_hms); not verified, validated by the generated-code stream of '
+                     'this run: the translator (string subset) and the string/format library of Py.lean']
+
+
+def gen_stream(ctx, tu, corpus):
+    if not ctx.driver:
+        ctx.notes.append('generated-code stream skipped: no driver')
+        return
+    import time
+    t0 = time.time()
+    xs = [s for s in xml_cases(ctx, corpus) if all(legal_cp(ord(c)) for c in s)]
+    hs = [(v, ms) for v, ms in hms_cases(ctx, corpus) if in_domain(v, ms)]
+    cap = ctx.n(15000)
+    if len(xs) > cap:
+        xs = xs[:500] + ctx.rng.sample(xs[500:], cap - 500)
+    if len(hs) > cap:
+        hs = hs[:500] + ctx.rng.sample(hs[500:], cap - 500)
+    lines = ['gen xml_escape 15 s' + enc_str(s) for s in xs]
+    lines += [f"gen format_hms 15 {common.pyval(v)} {'True' if ms else 'False'}" for v, ms in hs]
+    outs = ctx.driver.batch(lines)
+    bad = [0, 0]
+    for s, g in zip(xs, outs):
+        try:
+            want = 's' + enc_str(tu.xml_escape(s))
+        except Exception as ex:
+            want = 'RAISE ' + type(ex).__name__
+        ctx.count(('gen-xml', s), 'gen:xml_escape', False)
+        if g != want and not (want.startswith('RAISE') and g == 'ERR'):
+            bad[0] += 1
+            ctx.disagree('Gen.xml_escape vs text_utils.xml_escape', {'kind': 'xml', 'gen': True, 's': enc_str(s), 'text': s[:60]},
+                         want, g)
+    for (v, ms), g in zip(hs, outs[len(xs):]):
+        try:
+            want = 's' + enc_str(tu.format_hms(v, True) if ms else tu.format_hms(v))
+        except Exception as ex:
+            want = 'RAISE ' + type(ex).__name__
+        ctx.count(('gen-hms', show_num(v), ms), 'gen:format_hms', False)
+        if g != want and not (want.startswith('RAISE') and g == 'ERR'):
+            bad[1] += 1
+            ctx.disagree('Gen.format_hms (Rounding.ieee) vs text_utils.format_hms',
+                         {'kind': 'hms', 'gen': True, 'v': show_num(v), 'ms': ms, 'value': repr(v)},
+                         dec_str(want[1:]) if want.startswith('s') else want, dec_str(g[1:]) if g.startswith('s') else g)
+    ctx.notes.append(f'generated-code stream: Gen.xml_escape on {len(xs)} strings ({bad[0]} differ), Gen.format_hms (Rounding.ieee) on '
+                     f'{len(hs)} durations ({bad[1]} differ), identical texts required; {time.time() - t0:.1f}s')
